@@ -677,13 +677,20 @@ def gen_text(ctx):
     return out
 
 
-# finding exposed by the proof attempts C08_mp_{vpn,lu,flow4}_valid (see C08_mp_prefix4_length_refuted):
-# proposed in build/proposed/known_C08_more.json.  Its inputs are generated once the id is registered
-# (known_findings.json, or VERIF_KNOWN_EXTRA while it is being proposed); until then they are only
-# counted in extra['pending_known_inputs_skipped'], so that the verdict of the registered check does
-# not depend on an entry this module cannot add itself.
-PREFIXLEN_ID = 'C08-prefix-length-unchecked'
-NEXTHOP6_ID = 'C08-mpreach6-nexthop-mixed-family'     # seen while reading the (2, 1) branch for C08_mp_ipv6_valid
+# Two findings of the proof work on C08_mp_{vpn,lu,flow4,ipv6}_valid, both repaired in yabgp since
+# (fix: a prefix length (or flow-specification offset) outside the address size must be an error ...;
+#  fix: MP_REACH_NLRI for IPv6 unicast with a link-local next hop needs two IPv6 addresses):
+# their inputs are generated on every run and construction has to FAIL for each of them.
+MUST_FAIL_CLASSES = ('prefixlen.range', 'v6.nexthop.mixed')
+
+# EVPN ESI type 0 values that do not fit 9 octets (seen by the C07 EVPN work, decided here): with an even
+# number of hex digits the ESI is written with 11 or more octets.  Proposed both as a repair
+# (build/proposed/c08-evpn-esi0-range.patch) and as a known finding (build/proposed/known_C08_more.json);
+# the inputs run once either is in place - with the repair construction must fail (class 'evpn.esi0.range'
+# joins the must-fail classes), with the known entry the invalid messages are reported under its id.
+# Until then they are only counted (extra['pending_inputs_skipped']): this module can register neither.
+ESI0_ID = 'C08-evpn-esi0-range'
+ESI0_CLASS = 'evpn.esi0.range'
 
 
 def known_registered(kid):
@@ -693,11 +700,34 @@ def known_registered(kid):
         return False
 
 
+def esi0_repaired():
+    try:
+        from yabgp.message.attribute.nlri.evpn import EVPN
+        EVPN.construct_esi({'type': 0, 'value': 2 ** 76})
+    except Exception:
+        return True
+    return False
+
+
+def gen_esi0(ctx):
+    out = []
+    for v in (2 ** 72, 2 ** 76, 2 ** 80 - 1, 2 ** 84 + 5, 2 ** 88, 2 ** 128, -1):
+        esi = {'type': 0, 'value': v}
+        out.append(mp(ESI0_CLASS, reach={'afi_safi': [25, 70], 'nexthop': '10.75.44.254', 'nlri': [
+            {'type': 1, 'value': {'rd': '1.1.1.1:32867', 'esi': esi, 'eth_tag_id': 100, 'label': [10]}}]}))
+        out.append(mp(ESI0_CLASS, unreach={'afi_safi': [25, 70], 'withdraw': [
+            {'type': 4, 'value': {'rd': '172.16.0.1:8888', 'esi': esi, 'ip': '192.168.0.1'}}]}))
+        out.append(mp(ESI0_CLASS, reach={'afi_safi': [25, 70], 'nexthop': '2001:db8::1', 'nlri': [
+            {'type': 2, 'value': {'eth_tag_id': 108, 'label': [100], 'rd': '172.17.0.3:2',
+                                  'mac': '00-11-22-33-44-55', 'esi': esi, 'ip': '11.11.11.1'}}]}))
+    return out
+
+
 def gen_prefixlen(ctx):
     """prefix texts whose length part is outside the address size (or whose address is of the other family)
     for the constructors that take the length from int(text): VPNv4, labeled unicast v4, flow specification"""
     out = []
-    cls = 'prefixlen.unchecked'
+    cls = 'prefixlen.range'
     for l in (33, 40, 64, 128, 167, 255, -8):
         p = '10.0.0.0/%d' % l
         out.append(mp(cls, reach={'afi_safi': [1, 128], 'nexthop': {'rd': '0:0', 'str': '10.0.0.1'},
@@ -724,12 +754,13 @@ def gen_nexthop6(ctx):
 
 def generate(ctx):
     cases = gen_small(ctx) + gen_open(ctx) + gen_v4(ctx) + gen_mp(ctx) + gen_text(ctx)
-    generate.pending_skipped = 0
-    for kid, pending in ((PREFIXLEN_ID, gen_prefixlen(ctx)), (NEXTHOP6_ID, gen_nexthop6(ctx))):
-        if known_registered(kid):
-            cases += pending
-        else:
-            generate.pending_skipped += len(pending)
+    cases += gen_prefixlen(ctx) + gen_nexthop6(ctx)
+    generate.esi0_repaired = esi0_repaired()
+    if generate.esi0_repaired or known_registered(ESI0_ID):
+        cases += gen_esi0(ctx)
+        generate.pending_skipped = 0
+    else:
+        generate.pending_skipped = len(gen_esi0(ctx))
     # the committed corpus of earlier failures runs first
     corpus = []
     d = os.path.join(common.VERIF, 'findings')
@@ -761,41 +792,6 @@ def _mp_nlri(inp):
             n = v.get(key)
             res.append((tuple(v['afi_safi']), n if isinstance(n, list) else [n]))
     return res
-
-
-def _split_prefix(text):
-    """(address version or None, length or None) of 'addr/len' text, without interpreting more than the code does"""
-    import netaddr
-    try:
-        a, l = text.split('/')
-        return netaddr.IPAddress(a).version, int(l)
-    except Exception:
-        return None, None
-
-
-def _prefix_out_of_range(fam, n):
-    """input class of C08-prefix-length-unchecked: a prefix whose length part (or offset) is outside the address
-    size of the family, or whose address is of the other family, given to a constructor that does not check:
-    NLRI.construct_prefix_v4 (VPNv4, labeled unicast v4), IPv4FlowSpec / IPv6FlowSpec.construct_prefix"""
-    if fam in ((1, 128), (1, 4)) and isinstance(n.get('prefix'), str):
-        ver, l = _split_prefix(n['prefix'])
-        return l is not None and not 0 <= l <= 32
-    if fam == (1, 133):
-        for t in (1, 2, '1', '2'):
-            if isinstance(n.get(t), str):
-                ver, l = _split_prefix(n[t])
-                if l is not None and (ver != 4 or not 0 <= l <= 32):
-                    return True
-    if fam == (2, 133):
-        for t in (1, 2, '1', '2'):
-            pd = n.get(t)
-            if isinstance(pd, dict) and isinstance(pd.get('prefix'), str):
-                ver, l = _split_prefix(pd['prefix'])
-                off = pd.get('offset', 0)
-                if l is not None and (ver != 6 or not 0 <= l <= 128 or
-                                      (isinstance(off, int) and not 0 <= off <= l)):
-                    return True
-    return False
 
 
 def classify(kind, inp, msg):
@@ -831,24 +827,21 @@ def classify(kind, inp, msg):
                 macs += [x for k, x in e['value'].items() if k.endswith('mac_addr')]
     if any(isinstance(m, str) and len(m.split('-')) != 6 for m in macs):
         return 'C08-mac-text-not-six-groups'
+    # ESI type 0 whose value does not fit 9 octets
+    for (fam, nl) in fams:
+        if fam != (25, 70):
+            continue
+        for n in nl:
+            v = n.get('value') if isinstance(n, dict) else None
+            e = v.get('esi') if isinstance(v, dict) else None
+            if isinstance(e, dict) and e.get('type') == 0 and isinstance(e.get('value'), int) \
+                    and not 0 <= e['value'] < 2 ** 72:
+                return ESI0_ID
     for (fam, nl) in fams:
         for n in nl:
             if fam == (25, 70) and isinstance(n, dict) and n.get('type') in (3, 4) and \
                     isinstance(n.get('value'), dict) and not n['value'].get('ip'):
                 return 'C08-evpn-originator-ip-missing'
-    for (fam, nl) in fams:
-        for n in nl:
-            if isinstance(n, dict) and _prefix_out_of_range(fam, n):
-                return PREFIXLEN_ID
-    r = _attr(inp, 14)
-    if isinstance(r, dict) and tuple(r.get('afi_safi', ())) == (2, 1) and r.get('linklocal_nexthop'):
-        import netaddr
-        try:
-            vs = [netaddr.IPAddress(r[k]).version for k in ('nexthop', 'linklocal_nexthop')]
-        except Exception:
-            vs = [6, 6]
-        if vs != [6, 6]:
-            return NEXTHOP6_ID
     for (fam, nl) in fams:
         for n in nl:
             if not isinstance(n, dict):
@@ -924,8 +917,8 @@ WITNESS_IMPORTS = ('From YV Require Import lib.Base gen.Consts model.YMp model.Y
 
 
 def correspondence_witnesses(ctx):
-    """the inputs of C08_mp_prefix4_length_refuted / C08_mp_label0_refuted: the model's octets are the
-    implementation's (the refutations are about yabgp, not about a modelling slip)"""
+    """the inputs of C08_mp_label0_refuted and C08_mp_prefix_length_is_error: the model's result is the
+    implementation's (octets for octets; an exception where the model says Exc)"""
     from yabgp.message.attribute.mpreachnlri import MpReachNLRI
     from yabgp.message.attribute.mpunreachnlri import MpUnReachNLRI
     from session import Bytes, coq_sx
@@ -933,23 +926,32 @@ def correspondence_witnesses(ctx):
     v40 = {'label': [25], 'rd': '100:100', 'prefix': '10.0.0.0/40'}
     l40 = {'label': [25], 'prefix': '10.0.0.0/40'}
     ws = [
-        ('sx_res SB (reachvpn_construct false 0 0 167772161 [mk_vroute [25] (RdAs 100 100) 167772160 40])',
-         MpReachNLRI, {'afi_safi': (1, 128), 'nexthop': vnh, 'nlri': [v40]}, False),
-        ('sx_res sx_optbytes (unreachvpn_construct false [mk_vroute [25] (RdAs 100 100) 167772160 40])',
-         MpUnReachNLRI, {'afi_safi': (1, 128), 'withdraw': [v40]}, True),
-        ('sx_res sx_optbytes (reachlu_construct false 167772161 [mk_lroute [25] 167772160 40])',
-         MpReachNLRI, {'afi_safi': (1, 4), 'nexthop': '10.0.0.1', 'nlri': [l40]}, True),
-        ('sx_res sx_optbytes (unreachlu_construct false [mk_lroute [25] 167772160 40])',
-         MpUnReachNLRI, {'afi_safi': (1, 4), 'withdraw': [l40]}, True),
-        ('sx_res sx_optbytes (reachfs_construct None [mk_flow (Some (3227517696, 33)) None []])',
-         MpReachNLRI, {'afi_safi': (1, 133), 'nexthop': '', 'nlri': [{1: '192.96.3.0/33'}]}, True),
-        ('sx_res sx_optbytes (unreachfs_construct [mk_flow (Some (3227517696, 33)) None []])',
-         MpUnReachNLRI, {'afi_safi': (1, 133), 'withdraw': [{1: '192.96.3.0/33'}]}, True),
+        # C08_mp_label0_refuted
         ('sx_res SB (reachvpn_construct false 0 0 167772161 [mk_vroute [0] (RdAs 100 1) 167772160 8])',
          MpReachNLRI, {'afi_safi': (1, 128), 'nexthop': vnh,
                        'nlri': [{'label': [0], 'rd': '100:1', 'prefix': '10.0.0.0/8'}]}, False),
         ('sx_res sx_optbytes (reachlu_construct false 167772161 [mk_lroute [0] 3221225472 8])',
          MpReachNLRI, {'afi_safi': (1, 4), 'nexthop': '10.0.0.1', 'nlri': [{'label': [0], 'prefix': '192.0.0.0/8'}]}, True),
+        # C08_mp_prefix_length_is_error: an exception on both sides
+        ('sx_res SB (reachvpn_construct false 0 0 167772161 [mk_vroute [25] (RdAs 100 100) 167772160 40])',
+         MpReachNLRI, {'afi_safi': (1, 128), 'nexthop': vnh, 'nlri': [v40]}, False),
+        ('sx_res sx_optbytes (unreachvpn_construct false [mk_vroute [25] (RdAs 100 100) 167772160 33])',
+         MpUnReachNLRI, {'afi_safi': (1, 128), 'withdraw': [dict(v40, prefix='10.0.0.0/33')]}, True),
+        ('sx_res SB (reachvpn_construct true 0 0 1 [mk_vroute [25] (RdAs 100 100) (2 ^ 125) 129])',
+         MpReachNLRI, {'afi_safi': (2, 128), 'nexthop': {'rd': '0:0', 'str': '::1'},
+                       'nlri': [{'label': [25], 'rd': '100:100', 'prefix': '2000::/129'}]}, False),
+        ('sx_res sx_optbytes (reachlu_construct false 167772161 [mk_lroute [25] 167772160 40])',
+         MpReachNLRI, {'afi_safi': (1, 4), 'nexthop': '10.0.0.1', 'nlri': [l40]}, True),
+        ('sx_res sx_optbytes (unreachlu_construct false [mk_lroute [25] 167772160 33])',
+         MpUnReachNLRI, {'afi_safi': (1, 4), 'withdraw': [dict(l40, prefix='10.0.0.0/33')]}, True),
+        ('sx_res sx_optbytes (reachlu_construct true 1 [mk_lroute [25] (2 ^ 125) 129])',
+         MpReachNLRI, {'afi_safi': (2, 4), 'nexthop': '::1', 'nlri': [{'label': [25], 'prefix': '2000::/129'}]}, True),
+        ('sx_res sx_optbytes (reachfs_construct None [mk_flow (Some (3227517696, 33)) None []])',
+         MpReachNLRI, {'afi_safi': (1, 133), 'nexthop': '', 'nlri': [{1: '192.96.3.0/33'}]}, True),
+        ('sx_res sx_optbytes (unreachfs_construct [mk_flow None (Some (3227517696, 255)) []])',
+         MpUnReachNLRI, {'afi_safi': (1, 133), 'withdraw': [{2: '192.96.3.0/255'}]}, True),
+        ('sx_res sx_optbytes (reachfs_construct None [mk_flow (Some (2 ^ 125, 32)) None []])',
+         MpReachNLRI, {'afi_safi': (1, 133), 'nexthop': '', 'nlri': [{1: '2000::/32'}]}, True),
     ]
     rows, descr = [], []
     for expr, klass, value, optional in ws:
@@ -965,7 +967,7 @@ def correspondence_witnesses(ctx):
     idx = common.parse_nats(out)
     if rc != 0 or idx is None:
         return len(ws), [{'what': 'witness case file does not evaluate: %s' % common.first_error(out)}]
-    return len(ws), [{'what': 'model and implementation differ on the witness of a C08 refutation: %s.construct(%r)'
+    return len(ws), [{'what': 'model and implementation differ on a witness of C08.v (refutation / error example): %s.construct(%r)'
                               % descr[i], 'input': repr(descr[i])} for i in idx]
 
 
@@ -987,6 +989,14 @@ def run(ctx):
     for e in errors:
         mism.append({'what': e})
     per_class = {}
+    mf_classes = MUST_FAIL_CLASSES + ((ESI0_CLASS,) if getattr(generate, 'esi0_repaired', False) else ())
+    must_fail = [(i, m) for (i, m) in msgs if cases[i][1] in mf_classes]
+    for i, m in must_fail:        # repaired findings: a message instead of an error is the defect again
+        kind, cls, inp = cases[i]
+        viol.append({'what': 'constructor returned a message for an input that must be refused (input class %s): %s'
+                             % (cls, (m.hex() if m is not None else 'not a byte string')[:160]),
+                     'kind': kind, 'class': cls, 'input': inp, 'message': m.hex() if m is not None else None,
+                     'known': None})
     for j in bad:
         i, m = msgs[j]
         kind, cls, inp = cases[i]
@@ -1018,7 +1028,9 @@ def run(ctx):
                   'returned_none': n_none, 'exception_types': exc_kinds, 'input_classes': classes,
                   'invalid_by_class': per_class, 'correspondence_cases_small': n_corr,
                   'correspondence_refutation_witnesses': n_wit,
-                  'pending_known_inputs_skipped': getattr(generate, 'pending_skipped', 0),
+                  'must_fail_inputs': sum(1 for (_, c, _) in cases if c in mf_classes),
+                  'pending_inputs_skipped': getattr(generate, 'pending_skipped', 0),
+                  'must_fail_inputs_accepted': len(must_fail),
                   'free_text': {'string_fields_mutated': getattr(gen_text, 'leaves', 0),
                                 'unusual_texts': len(UNUSUAL_TEXT),
                                 'policy_names': len(POLICY_NAMES),
